@@ -24,7 +24,30 @@ def section(text, title_re):
     return (rest[:n.start()] if n else rest).strip()
 
 
+def update_own(results, commit):
+    """seedimport.py --update-own <results.json> <verif commit>: records, for seeds already imported, what the check of
+    their own property reported when run (seedrun.py --own) with the machinery of the given commit."""
+    res = json.load(open(results))
+    for sid, rec in sorted(res.items()):
+        mp = os.path.join(VERIF, "seeded", sid.replace("/", "-"), "meta.json")
+        if not os.path.exists(mp):
+            print("not imported:", sid)
+            continue
+        meta = json.load(open(mp))
+        own = rec.get("checks", {}).get(rec["property"])
+        if own is None:
+            continue
+        meta["detection"]["own_check_latest"] = {
+            "verif_commit": commit, "validated_again": rec.get("validated"),
+            "reports_it": own.get("rc") == 1, "violation_line": (own.get("violations") or [""])[0],
+            "replay_head": (own.get("replay_head") or "")[:1500]}
+        json.dump(meta, open(mp, "w"), indent=1)
+        print("updated", sid, "own check reports it:", own.get("rc") == 1)
+
+
 def main():
+    if sys.argv[1] == "--update-own":
+        return update_own(sys.argv[2], sys.argv[3])
     root, results, commit = sys.argv[1], sys.argv[2], sys.argv[3]
     res = json.load(open(results))
     for sid, rec in sorted(res.items()):
